@@ -34,18 +34,27 @@ func lazyValue(c px.Context, kind string) px.Value {
 }
 
 func lazyAsk(kind string, v px.Value) (raw interface{}, text string) {
+	// the observation itself: the call that reads (and may fill) the cache of the shared value
+	var t px.Type
 	switch kind {
 	case "array.reduced", "hash.reduced":
-		t := v.PType()
-		return t, t.String()
+		t = v.PType()
 	case "array.detailed", "hash.detailed":
-		t := px.DetailedValueType(v)
-		return t, t.String()
+		t = px.DetailedValueType(v)
 	case "hash.index":
 		x, ok := v.(px.OrderedMap).Get4("b")
 		return nil, fmt.Sprint(ok, x)
+	default:
+		panic("bad kind " + kind)
 	}
-	panic("bad kind " + kind)
+	// rendering the type that was handed out formats a goroutine-local array of parameters, which infers the type
+	// of that array and so passes through "array.reduced.window" again: not a step of the shared cell.  The
+	// rendering happens at once (no other goroutine runs meanwhile), so a half-built object is seen as it was handed out.
+	if th := currentThread(); th != nil {
+		th.quiet = true
+		defer func() { th.quiet = false }()
+	}
+	return t, t.String()
 }
 
 var lazyRef = map[string]string{}
@@ -82,26 +91,26 @@ func runLazyCase(c lazyCase, pick policy) *runResult {
 	return runJobs(jobs, pick, nil)
 }
 
-// creators: the object that an operation was handed belongs to the thread whose operation returned it first
+// creators: an operation that found the cache empty (it parked in the window of that cache) builds the object
+// itself and is handed its own object (ConcLazy.lstep, both orders of build and publish); every other operation is
+// handed an object that one of those built.  -1: the harness cannot tell (no object identity, or an object that no
+// operation of the run built).
 func lazyCreators(rr *runResult) [][]int {
-	first := map[interface{}][2]int{} // pointer -> (step, thread)
+	creator := map[interface{}]int{}
 	for t, th := range rr.Results {
 		for i, r := range th {
-			if r.raw == nil || i >= len(rr.DoneAt[t]) {
-				continue
-			}
-			if f, ok := first[r.raw]; !ok || rr.DoneAt[t][i] < f[0] {
-				first[r.raw] = [2]int{rr.DoneAt[t][i], t}
+			if r.raw != nil && rr.Windowed[t][i] {
+				creator[r.raw] = t
 			}
 		}
 	}
 	out := make([][]int, len(rr.Results))
 	for t, th := range rr.Results {
 		for _, r := range th {
-			if r.raw == nil {
-				out[t] = append(out[t], -1)
+			if by, ok := creator[r.raw]; r.raw != nil && ok {
+				out[t] = append(out[t], by)
 			} else {
-				out[t] = append(out[t], first[r.raw][1])
+				out[t] = append(out[t], -1)
 			}
 		}
 	}
